@@ -6,7 +6,7 @@ var pipeProtocols = [4]Protocol{ProtocolConnect, ProtocolGRPC, ProtocolGRPCWeb, 
 // client form x target protocol x same/different codec x client/service compression);
 // thorough adds multi-protocol and multi-codec services.
 func pickPipeCfg() (*pipeCfg, bool) {
-	cfg := &pipeCfg{maxMsg: 64}
+	cfg := &pipeCfg{maxMsg: 4096}
 	cfg.client = verifChoose("client", 6)
 	if verifTier() == 1 {
 		set := verifChoose("protocols", 15) + 1
@@ -105,11 +105,14 @@ func hC01Pipe() {
 	p.backend.script = &respScript{msgs: respMsgs, comp: backendComp}
 	p.serve(reqMsgs)
 
-	out := refParseClientResponse(cfg, p.sink)
+	out := refParseClientResponse(cfg, p.sink, p.backend.rec.calls > 0)
 	verifObsInt("calls", int64(p.backend.rec.calls))
 	verifObsBytes("backend-body", p.backend.rec.body)
 	verifObsInt("status", int64(p.sink.status))
-	verifObsBytes("client-body", p.sink.body)
+	if out.valid && out.code == 0 {
+		verifObsBytes("client-body", p.sink.body) // error texts come from library messages the models do not reproduce
+	}
+	verifObsInt("client-code", int64(out.code))
 	if pipeIsPassThrough(cfg) {
 		verifReach("pass-through")
 	}
